@@ -8,7 +8,7 @@ from ..seams import LIB_ERRORS
 from ..core import real
 from ..oracle import (ACCEPT, REJECT, EITHER, slack3, slack_tripped_int, and3,
                       verdict3, validsig, sha256, shake256, pubkey_of_seed,
-                      bool_of, base_mult, point_add)
+                      bool_of, base_mult, point_add, as_key_arg, PREFIXES)
 
 PID = 'C15'
 ISOLATE = True      # one forked process per run: nothing a run does to process-global
@@ -82,6 +82,7 @@ def gen_output(rng, kind, at_us):
          'use_digest': rng.chance(1, 3),
          'allowed': rng.choice(['00', '00', '01', '03', 'ff', '06', '80', 'a0']),
          'hash_size': rng.choice([1, 16, 20, 32, 64]),
+         'keys': rng.choice(['bytes', 'bytes', 'object']),
          'sigfields': {}}
     for k in rng.sample(range(1, 9), rng.rng(1, 3)):
         o['sigfields']['sigfield%d' % k] = rng.bytes(rng.choice([1, 8, 32, 100])).hex()
@@ -120,7 +121,10 @@ def gen_step(rng, cell, oid, out, clocks, vname, thr, fault_free):
             'gthr': rng.choice([60, 0, 1, 10 ** 6]),
             # one attempt in eight does not stamp the transaction at all: the
             # execution timestamp is then the validator's own clock
-            'default_t': rng.chance(1, 8)}
+            'default_t': rng.chance(1, 8),
+            # keys handed to the builders as bytes or as PyNaCl objects; a neutral
+            # script prefix before the signing operation
+            'keys': rng.choice(['bytes', 'bytes', 'object']), 'prefix': rng.choice(PREFIXES)}
     if not fault_free:
         r = rng.below(10)
         if r == 0:
@@ -198,6 +202,8 @@ def build_lock(out, keys):
     pre = bytes.fromhex(out['preimage'])
     kw = {'timeout': out['timeout'], 'sigflags': out['allowed']}
     recv, refund = keys['R'][1], keys['S'][1]
+    recv, refund = as_key_arg('pub', recv, out.get('keys', 'bytes')), \
+        as_key_arg('pub', refund, out.get('keys', 'bytes'))
     if k == 'htlc_sha' or k == 'htlc2_sha':
         fn = T.make_htlc_sha256_lock if k == 'htlc_sha' else T.make_htlc2_sha256_lock
         if out['use_digest']:
@@ -216,17 +222,18 @@ def build_lock(out, keys):
 
 def build_witness(step, out, keys, preimage):
     """Calls the real witness builder; returns the Script."""
-    seed = keys[step['actor']][0]
+    seed = as_key_arg('prv', keys[step['actor']][0], step.get('keys', 'bytes'))
     sf = {k: bytes.fromhex(v) for k, v in out['sigfields'].items()}
     wk = step['wkind']
+    pfx = step.get('prefix', '')
     if wk == 'htlc':
-        return T.make_htlc_witness(seed, preimage, sf, step['flag'])
+        return T.make_htlc_witness(seed, preimage, sf, step['flag'], pfx)
     if wk == 'htlc2':
-        return T.make_htlc2_witness(seed, preimage, sf, step['flag'])
+        return T.make_htlc2_witness(seed, preimage, sf, step['flag'], pfx)
     if wk == 'ptlc':
         tw = bytes.fromhex(out['tweak']) if 'tweak' in out and step['actor'] == 'R' else None
-        return T.make_ptlc_witness(seed, sf, tw, step['flag'])
-    return T.make_ptlc_refund_witness(seed, sf, step['flag'])
+        return T.make_ptlc_witness(seed, sf, tw, step['flag'], pfx)
+    return T.make_ptlc_refund_witness(seed, sf, step['flag'], pfx)
 
 
 def items_of(script):
